@@ -243,7 +243,7 @@ def dense_by_phase(s):
 
 def totals(s):
     d = dense_by_phase(s)
-    return sum(d.values())
+    return sum(d.values(), np.zeros(len(s.chemicals.IDs)))   # stays an array when no phase is left
 
 def _g(o, k):
     try: return getattr(o, k)
